@@ -18,8 +18,8 @@ yields ub = 0 for every zone whose first rank exceeds the cut-off.
 that calls evaluate_at depends on the `limit` argument (matches deeper in a zone than the remaining limit would be masked out as if they had failed the predicate).
 Does NOT decide: the remaining arithmetic of the RLTE planner (which min/max a partial ladder yields, zone sizes after compaction), slice positions, typed order of ScalarValue::compare (value level).
 """
-FLOOR = 11
-REQUIRED = ["C10.a", "C10.b", "C10.c", "C10.d", "C10.e1", "C10.e2", "C10.f", "C10.g", "C10.h", "C10.i", "C10.j"]
+FLOOR = 12
+REQUIRED = ["C10.a", "C10.b", "C10.c", "C10.d", "C10.e1", "C10.e2", "C10.f", "C10.g", "C10.h", "C10.i", "C10.j", "C10.k"]
 
 COPIES = ["engine::core::read::segment_query_runner::compare_scalar_values",
           "engine::core::read::flow::operators::memtable_source::compare_scalar_values",
@@ -427,3 +427,39 @@ def run(ctx):
                 bad.append(("unknown-zone-pruned", "lb_ub_one_numeric answers (0, 0) - `no row of this zone can be in the result` - for a ladder none of whose entries parsed as a number (null / missing sort values): the zone is pruned although nothing is known about it", sp(n, zb)))
         return bad
     ctx.run("C10.j", "K8 GUARD", "RlteCoordinator::should_plan / RlteCatalog::lb_ub_one_numeric", "the zone pre-selection is engaged only where a zone's rank decides, and keeps zones it cannot rank", j_)
+
+    def k_(inst):
+        """LIMIT / OFFSET are applied once. AggregateStreamMerger pages the merged groups of an aggregate query, the ordered merge pages an
+        ORDER BY query; for those the query handler must hand the response writer (None, None). Decided: in QueryCommandHandler::handle a
+        (None, None) pair for the writer sits behind the `aggs is Some` edge (like the one behind `order_by is Some`)."""
+        bad = []
+        b = F.fn("QueryCommandHandler::handle")
+        none_pairs = []
+        for i_ in sorted(b.live_blocks()):
+            for st in b.blocks[i_]["s"]:
+                v = st.get("v") or {}
+                if v.get("r") == "agg" and v.get("ak") == "tuple" and len(v.get("o", [])) == 2:
+                    if all(any(l[0] == "agg" and l[1].endswith("Option::None") for l in b.origins(o)) and len(b.origins(o)) == 1 for o in v["o"]):
+                        none_pairs.append(i_)
+        if not none_pairs:
+            raise AnchorMissing("the (None, None) limit / offset pair(s) of QueryCommandHandler::handle")
+
+        def some_edges(field):
+            out = []
+            for i_ in sorted(b.live_blocks()):
+                if b.blocks[i_]["t"]["t"] != "switch":
+                    continue
+                if any(field in json.dumps(st.get("v") or {}) and "discr" in json.dumps(st.get("v") or {}) for st in b.blocks[i_]["s"]):
+                    si = b.switch_info(i_)
+                    for k_, tgt in (si.get("edges") or {}).items():
+                        if str(k_) in ("1", "Some"):
+                            out.append((i_, tgt))
+            return out
+        for field, what in ((".aggs", "aggregate"), (".order_by", "ORDER BY")):
+            es = some_edges(field)
+            ok = any(b.dominates_edge(e, nb) for e in es for nb in none_pairs)
+            inst.sites.append("%s queries: writer gets (None, None): %s" % (what, ok))
+            if not ok:
+                bad.append(("paged-twice:%s" % what.split(" ")[0].lower(), "QueryCommandHandler::handle hands LIMIT / OFFSET to the response writer for %s queries although their merger has already paged the result: OFFSET is skipped twice (COUNT BY c LIMIT 2 OFFSET 1 returns one group)" % what, sp(b, none_pairs[0])))
+        return bad
+    ctx.run("C10.k", "K8 GUARD", "QueryCommandHandler::handle", "LIMIT / OFFSET are applied by exactly one stage", k_)
